@@ -1,0 +1,49 @@
+//go:build verif
+
+package libseccomp
+
+// Contracts for gocv (see /verif/DESIGN.md). Comment-only; compiled only with
+// the build tag "verif".
+//
+// Numeric action words are the kernel's (linux/seccomp.h): ALLOW 0x7fff0000,
+// ERRNO 0x00050000, TRACE 0x7ff00000, KILL_PROCESS 0x80000000.
+
+//@ global pkg/seccomp/libseccomp.actTrace props C01: invariant uint32(actTrace) == 0x7ff00000
+
+//@ func pkg/seccomp/libseccomp.(Action).Action props C01
+//@   arith bv
+//@   assigns nothing
+//@   ensures uint32(result) == uint32(a) & 0xffff
+
+//@ func pkg/seccomp/libseccomp.ToSeccompAction props C01
+//@   arith bv
+//@   assigns nothing
+//@   ensures uint32(a) & 0xffff == 1 ==> uint32(result) == 0x7fff0000
+//@   ensures uint32(a) & 0xffff == 2 ==> uint32(result) == 0x00050000
+//@   ensures uint32(a) & 0xffff == 3 ==> uint32(result) == 0x7ff00000
+//@   ensures uint32(a) & 0xffff != 1 && uint32(a) & 0xffff != 2 && uint32(a) & 0xffff != 3 ==> uint32(result) == 0x80000000
+
+//@ func pkg/seccomp/libseccomp.sockFilter props C01
+//@   arith int
+//@   assigns nothing
+//@   ensures len(result) == len(raw)
+//@   ensures forall k int :: 0 <= k && k < len(raw) ==> result[k].Code == raw[k].Op && result[k].Jt == raw[k].Jt && result[k].Jf == raw[k].Jf && result[k].K == raw[k].K
+//@   loop 0: invariant -1 <= rangeindex && rangeindex < len(raw)
+//@   loop 0: invariant len(filter) == rangeindex + 1 && cap(filter) == len(raw) && fresh(filter) && soff(filter) == 0
+//@   loop 0: invariant forall k int :: 0 <= k && k <= rangeindex ==> filter[k].Code == raw[k].Op && filter[k].Jt == raw[k].Jt && filter[k].Jf == raw[k].Jf && filter[k].K == raw[k].K
+//@   loop 0: decreases len(raw) - rangeindex
+
+//@ func pkg/seccomp/libseccomp.ExportBPF props C01
+//@   arith int
+//@   assigns nothing
+//@   ensures result.1 == nil ==> len(result.0) == len(bpf_raw(filter))
+//@   ensures result.1 == nil ==> forall k int :: 0 <= k && k < len(result.0) ==> result.0[k].Code == bpf_raw(filter)[k].Op && result.0[k].Jt == bpf_raw(filter)[k].Jt && result.0[k].Jf == bpf_raw(filter)[k].Jf && result.0[k].K == bpf_raw(filter)[k].K
+
+// Build hands the dependency exactly the declared policy: default action
+// translated (unset fails closed to KILL_PROCESS), group 0 = ALLOW for b.Allow,
+// group 1 = TRACE for b.Trace, nothing else.
+//@ func pkg/seccomp/libseccomp.(*Builder).Build props C01
+//@   arith bv
+//@   callsite (*Policy).Assemble: assert uint32(p.DefaultAction) == ite(uint32(b.Default) & 0xffff == 1, uint32(0x7fff0000), ite(uint32(b.Default) & 0xffff == 2, uint32(0x00050000), ite(uint32(b.Default) & 0xffff == 3, uint32(0x7ff00000), uint32(0x80000000))))
+//@   callsite (*Policy).Assemble: assert len(p.Syscalls) == 2 && uint32(p.Syscalls[0].Action) == 0x7fff0000 && p.Syscalls[0].Names == b.Allow && uint32(p.Syscalls[1].Action) == 0x7ff00000 && p.Syscalls[1].Names == b.Trace
+//@   callsite (*Policy).Assemble: assert p.Syscalls[0].NamesWithCondtions == nil && p.Syscalls[1].NamesWithCondtions == nil
